@@ -795,6 +795,7 @@ func (x *Exec) assign(s *State, fr *Frame, n *ast.AssignStmt) {
 		}
 		res := x.binop(s, fr, op, cur, rhs, t, fr.info.TypeOf(n.Rhs[0]), n.Pos(), exprText(x.w.Fset, n.Lhs[0])+n.Tok.String())
 		x.writeLoc(s, fr, loc, t, res)
+		x.afterAssign(s, fr, n)
 		return
 	}
 	// evaluate RHS first
@@ -2363,18 +2364,72 @@ func (x *Exec) havocStmt(s *State, fr *Frame, st ast.Stmt) *State {
 		}
 	}
 	// control flow out of the statement (return/break) is lost: reject if it has any
-	hasJump := false
-	ast.Inspect(st, func(n ast.Node) bool {
-		switch n.(type) {
-		case *ast.FuncLit:
-			return false
-		case *ast.ReturnStmt, *ast.BranchStmt:
-			hasJump = true
-		}
-		return true
-	})
+	hasJump := escapes(st)
 	if hasJump {
 		panic(unsupported{"unsupported statement contains return/break/continue: " + x.w.Fset.Position(st.Pos()).String()})
 	}
 	return s
+}
+
+// escapes reports whether control can leave the statement other than by falling off its
+// end: a return, a goto or labelled branch, or an unlabelled break/continue that is not
+// enclosed by a loop (for continue) or by a loop, switch or select (for break) inside it.
+func escapes(st ast.Stmt) bool {
+	found := false
+	var walk func(n ast.Node, inLoop, inBreakable bool)
+	walk = func(n ast.Node, inLoop, inBreakable bool) {
+		if n == nil || found {
+			return
+		}
+		switch v := n.(type) {
+		case *ast.FuncLit:
+			return
+		case *ast.ReturnStmt:
+			found = true
+			return
+		case *ast.BranchStmt:
+			switch {
+			case v.Label != nil || v.Tok == token.GOTO || v.Tok == token.FALLTHROUGH:
+				found = true
+			case v.Tok == token.BREAK && !inBreakable:
+				found = true
+			case v.Tok == token.CONTINUE && !inLoop:
+				found = true
+			}
+			return
+		case *ast.ForStmt:
+			walk(v.Init, inLoop, inBreakable)
+			walk(v.Post, inLoop, inBreakable)
+			walk(v.Body, true, true)
+			return
+		case *ast.RangeStmt:
+			walk(v.Body, true, true)
+			return
+		case *ast.SwitchStmt:
+			walk(v.Init, inLoop, inBreakable)
+			walk(v.Body, inLoop, true)
+			return
+		case *ast.TypeSwitchStmt:
+			walk(v.Init, inLoop, inBreakable)
+			walk(v.Body, inLoop, true)
+			return
+		case *ast.SelectStmt:
+			walk(v.Body, inLoop, true)
+			return
+		case *ast.LabeledStmt:
+			// a label inside: branches to it stay inside only if we tracked labels; be
+			// conservative
+			found = true
+			return
+		}
+		ast.Inspect(n, func(c ast.Node) bool {
+			if c == n || c == nil {
+				return c == n
+			}
+			walk(c, inLoop, inBreakable)
+			return false
+		})
+	}
+	walk(st, false, false)
+	return found
 }
